@@ -172,6 +172,10 @@ def run(prog, chk):
              ("value-missing", [("o1", "v1")], None, [], NOTTRUST), ("value-different", [("o1", "v1")], None, [("o1", "zz")], NOTTRUST),
              ("second-different", [("o1", "v1"), ("o2", "v2")], None, [("o1", "v1"), ("o2", "zz")], NOTTRUST),
              ("two-matching", [("o1", "v1"), ("o2", "v2")], None, [("o1", "v1"), ("o2", "v2")], 0),
+             ("constraint-is-a-prefix-of-the-value", [("o1", "Guardtime")], None, [("o1", "Guardtime Impostors")], NOTTRUST),
+             ("value-is-a-prefix-of-the-constraint", [("o1", "Guardtime AS")], None, [("o1", "Guardtime")], NOTTRUST),
+             ("empty-value-vs-constraint", [("o1", "v1")], None, [("o1", "")], NOTTRUST),
+             ("same-value-other-oid", [("o1", "v1")], None, [("o2", "v1")], NOTTRUST),
              ("file-overrides-context", [("o1", "v1")], [("o9", "v9")], [("o1", "v1")], 0),
              ("file-overrides-context-mismatch", [("o1", "v1")], [("o9", "v9")], [("o9", "v9")], NOTTRUST)]
     for name, filec, ctxc, subject, want in cases:
@@ -203,13 +207,34 @@ def run(prog, chk):
                 return len(subj[oid])
             return -1
 
+        def cstr(v):
+            if isinstance(v, Ptr) and str(v.what).startswith("str:"):
+                return v.what[4:]
+            if isinstance(v, Ptr) and str(v.what).startswith("arr:"):
+                return cur.get("v")          # the local buffer filled by X509_NAME_get_text_by_OBJ
+            return None
+
         def strn(I, p, node, args):
-            b = args[1].what[4:] if isinstance(args[1], Ptr) and str(args[1].what).startswith("str:") else None
-            return 0 if cur.get("v") == b else 1
+            a, b, n = cstr(args[0]), cstr(args[1]), (args[2] if len(args) > 2 else 1 << 30)
+            if a is None or b is None or not isinstance(n, int):
+                return TOP
+            a, b = a + "\0", b + "\0"
+            for k in range(n):
+                ca = a[k] if k < len(a) else "\0"
+                cb = b[k] if k < len(b) else "\0"
+                if ca != cb:
+                    return 1
+                if ca == "\0":
+                    return 0
+            return 0
+
+        def strlen_(I, p, node, args):
+            a = cstr(args[0])
+            return len(a) if a is not None else TOP
         ov = {"KSI_PKISignature_extractCertificate": extract, "X509_get_subject_name": lambda I, p, n, a: Ptr("SUBJ"),
               "OBJ_txt2obj": lambda I, p, n, a: Ptr("oid:" + (a[0].what if isinstance(a[0], Ptr) else "?")),
               "X509_NAME_get_text_by_OBJ": lambda I, p, n, a: gettext(I, p, n, [a[0], Ptr("str:" + a[1].what[8:]) if isinstance(a[1], Ptr) else a[1]]),
-              "strncmp": strn, "ASN1_OBJECT_free": lambda I, p, n, a: TOP, "KSI_PKICertificate_free": lambda I, p, n, a: TOP}
+              "strncmp": strn, "strcmp": strn, "memcmp": strn, "strlen": strlen_, "ASN1_OBJECT_free": lambda I, p, n, a: TOP, "KSI_PKICertificate_free": lambda I, p, n, a: TOP}
         I = Interp(fk, inputs=inputs, call_model=succeed_model(prog, ov), on_unknown="stop", prog=prog, loop_bound=6)
         paths = I.run()
         if len(paths) != 1 or paths[0].undetermined:
